@@ -343,32 +343,31 @@ def compare(prop, cfg, sd, counters, violations, tie_broken, distinct):
         h = hashlib.sha1("\n".join(req).encode()).hexdigest()
         if nontrivial is None or nontrivial(req, im):
             distinct.add(h)
-        bad = None   # (kind, detail)
+        bads = []   # (kind, detail)
         I = im.get("I")
-        if "bad-request" in " ".join(sum(mo.values(), [])) or "bad-prop" in " ".join(sum(mo.values(), [])):
-            bad = ("driver-bad-request", "driver rejected the request")
-            no_input = True
+        extra = "".join(f"# G {g}\n" for g in im.get("G", []))
+        allmo = " ".join(sum(mo.values(), []))
+        if "bad-request" in allmo or "bad-prop" in allmo or not mo:
+            rp = os.path.join(VERIF, "replays", f"{prop}-{h[:12]}.txt")
+            open(rp, "w").write("\n".join(req) + f"\n# {desc}\n{extra}# driver rejected or did not answer the request\n")
+            violations.append(("driver-bad-request", "driver-bad-request " + desc, rp, True))
         for hv in im.get("H", []):
             if not hv.startswith("ok"):
                 counters["harness_fail"] += 1
-                bad = ("H", hv)
+                bads.append(("H", hv))
         for vv in mo.get("V", []):
             if not vv.startswith("ok"):
                 counters["validator_fail"] += 1
-                bad = bad or ("V", vv)
+                bads.append(("V", vv))
         if I is not None and "S" in mo and mo["S"] != I:
             counters["impl_violates_spec"] += 1
-            bad = bad or ("S", first_diff(I, mo["S"]))
-        if bad and bad[0] != "driver-bad-request":
-            rp = os.path.join(VERIF, "replays", f"{prop}-{h[:12]}.txt")
+            bads.append(("S", first_diff(I, mo["S"])))
+        for k, (kind, detail) in enumerate(bads):
+            rp = os.path.join(VERIF, "replays", f"{prop}-{h[:12]}-{k}.txt")
             with open(rp, "w") as f:
                 f.write("\n".join(req) + "\n")
-                f.write(f"# {desc}\n# {bad[0]}: {bad[1]}\n")
-            violations.append((bad[0], f"{bad[0]} {desc} :: {bad[1]}", rp, False))
-        elif bad:
-            rp = os.path.join(VERIF, "replays", f"{prop}-{h[:12]}.txt")
-            open(rp, "w").write("\n".join(req) + "\n# driver rejected the request\n")
-            violations.append((bad[0], bad[0], rp, True))
+                f.write(f"# {desc}\n{extra}# {kind}: {detail}\n")
+            violations.append((kind, f"{kind} {desc} :: {detail}", rp, False))
         if I is not None and "M" in mo and mo["M"] != I:
             counters["model_disagrees_impl"] += 1
             tie_broken.append("\n".join(req) + f"\n# {desc}\n# model/impl differ: {first_diff(I, mo['M'])}")
